@@ -363,11 +363,14 @@ pub struct AppRow {
     pub ccur: Option<String>,
     pub cfx: Option<String>,
     pub sell: bool,
+    /// a return of capital (per-share amount in the row's currency) instead of a Buy/Sell
+    #[serde(default)]
+    pub roc: bool,
 }
 
 impl AppRow {
     pub fn usd(trade: &str) -> AppRow {
-        AppRow { trade: trade.to_string(), settle_off: 2, cur: Some("USD".into()), fx: None, commission: false, ccur: None, cfx: None, sell: false }
+        AppRow { trade: trade.to_string(), settle_off: 2, cur: Some("USD".into()), fx: None, commission: false, ccur: None, cfx: None, sell: false, roc: false }
     }
 }
 
@@ -453,10 +456,10 @@ pub fn app_csv_from(rows: &[AppRow], first_index: usize, legacy_date: bool) -> S
             "FOO,{},{},{},{},{},{},{},{},{},{},{}\n",
             trade,
             trade + Duration::days(r.settle_off),
-            if r.sell { "Sell" } else { "Buy" },
-            if r.sell { "1" } else { "1000" },
-            "10.00",
-            if r.commission { "1.00" } else { "" },
+            if r.roc { "RoC" } else if r.sell { "Sell" } else { "Buy" },
+            if r.roc { "" } else if r.sell { "1" } else { "1000" },
+            if r.roc { "0.001" } else { "10.00" },
+            if r.commission && !r.roc { "1.00" } else { "" },
             r.cur.clone().unwrap_or_default(),
             r.fx.clone().unwrap_or_default(),
             r.ccur.clone().unwrap_or_default(),
@@ -543,6 +546,7 @@ pub fn run_fx_process(plan: FxPlan) -> FxObs {
                                 let (cr, ccr) = match &delta.tx.action_specifics {
                                     acb::portfolio::TxActionSpecifics::Buy(b) => (b.tx_currency_and_rate.clone(), b.commission_currency_and_rate().clone()),
                                     acb::portfolio::TxActionSpecifics::Sell(s) => (s.tx_currency_and_rate.clone(), s.commission_currency_and_rate().clone()),
+                                    acb::portfolio::TxActionSpecifics::Roc(r) => (r.tx_currency_and_rate.clone(), r.tx_currency_and_rate.clone()),
                                     _ => continue,
                                 };
                                 out.push(RowRates {
